@@ -1,6 +1,6 @@
 (* C01 -- property theorems only. *)
 From Coq Require Import String.
-From CppcmsV Require Import Base.Tac Base.Sweep C15.Defs C01.Defs C01.HttpSpec C01.HttpSeg C01.Chunked C01.ChunkedProofs C01.Enc C01.EncProofs C01.EncProofs2 C01.Conn C01.ConnProofs C01.HttpEnc C01.HttpEncProofs C01.HttpView C01.HttpUri C01.Final C01.Cookies C01.CookiesProofs C01.Pool C01.PoolProofs C01.Examples C01.Proofs Base.CSem C01.Link gen.Gen_C01.
+From CppcmsV Require Import Base.Tac Base.Sweep C15.Defs C01.Defs C01.HttpSpec C01.HttpSeg C01.Chunked C01.ChunkedProofs C01.Enc C01.EncProofs C01.EncProofs2 C01.Conn C01.ConnProofs C01.HttpEnc C01.HttpEncProofs C01.HttpView C01.HttpUri C01.EnvOk C01.HttpFold C01.AgreeG C01.Final C01.Cookies C01.CookiesProofs C01.Observe C01.ObserveProofs C01.EndToEnd C01.EndToEnd2 C01.KeepAlive C01.Pool C01.PoolProofs C01.SMap C01.SMapProofs C01.SMapEx C01.Examples C01.Proofs Base.CSem C01.Link gen.Gen_C01.
 Local Open Scope N_scope.
 
 (* ---------------------------------------------------------------------------------------------------------
@@ -285,15 +285,15 @@ Qed.
        header names, header block within the cap, Content-Length = |body|) the embedded server delivers the view v and
        the body; v is exactly the CGI view of its own environment E = v_env v (what getenv shows); and an SCGI or
        FastCGI peer that sends E (FastCGI: in any record layout) makes the application observe the same E, the same
-       view and the same body. *)
+       view and the same body.  E is env_ok (transportable) as a CONSEQUENCE of the request's well-formedness. *)
 Theorem frontends_agree :
   forall names m u pr hs body v,
   req_line_ok m u pr -> Forall header_ok hs -> NoDup (names_of hs) ->
   process_request names (fold_left add_hdr hs (http_req0 m u pr)) = POk v ->
   (0 <= v_clen v <= cl_limit)%Z -> Z.to_nat (v_clen v) = length body ->
   N.of_nat (length (http_wire m u pr hs)) <= 16385 ->
-  env_ok (v_env v) ->
-  (forall f rest, http_stream (S f) names (http_wire m u pr hs ++ body ++ rest)
+  env_ok (v_env v)
+  /\ (forall f rest, http_stream (S f) names (http_wire m u pr hs ++ body ++ rest)
                   = IReq v body :: match rest with [] => [] | l => http_stream f names l end)
   /\ view_of_env (v_env v) = v
   /\ (forall num, ~ In 58 num -> (length num <= 15)%nat -> atoi num = Z.of_nat (length (enc_scgi_blob (v_env v))) ->
@@ -304,8 +304,78 @@ Theorem frontends_agree :
         rid < 65536 -> pad0 < 256 -> pend < 256 -> send < 256 -> flags < 256 -> layout_ok pl -> layout_ok sl ->
         layout_data pl = enc_pairs (v_env v) -> N.of_nat (length (enc_pairs (v_env v))) < 16384 -> layout_data sl = body ->
         fcgi_decode (enc_fcgi rid flags pad0 pl pend sl send ++ rest) = FOk (N.odd flags) (v_env v) body rest).
-Proof. exact frontends_agree_lemma. Qed.
+Proof. exact frontends_agree_derived. Qed.
+
+(* the environment of a well-formed HTTP request can be sent by an SCGI / FastCGI peer: no NUL in names and values, lengths
+   below 2^31 - derived from the well-formedness of the request (used to be a premise of frontends_agree) *)
+Theorem http_env_is_transportable :
+  forall names m u pr hs v,
+  req_line_ok m u pr -> Forall header_ok hs ->
+  process_request names (fold_left add_hdr hs (http_req0 m u pr)) = POk v ->
+  N.of_nat (length (http_wire m u pr hs)) <= 16385 -> env_ok (v_env v).
+Proof. exact http_env_ok. Qed.
+Print Assumptions http_env_is_transportable.
 Print Assumptions frontends_agree.
+
+(* ---------------------------------------------------------------------------------------------------------
+   5c-bis. Header values of EVERY lexical shape pushed through parse_single_header.  A header is sent as name ":" text
+       where text is any byte string in the lexical classes of the parser (gvalue_ok: started in plain input the parser
+       consumes it and is back in plain input with every quoted string and comment closed; CR only as CRLF SP/HT
+       continuation).  The application gets the CGI variable with value gvalue text = cstr (skip_ws (fold_text text)),
+       fold_text = what parser::step leaves of the text (each CRLF SP/HT becomes the SP/HT, everything else - quotes,
+       escapes, comments - verbatim).  The request is delivered with exactly one variable per header, and the three
+       front-ends agree on it. *)
+Theorem http_decode_encode_general :
+  forall m u pr gs rest,
+  req_line_ok m u pr -> Forall gheader_ok gs ->
+  brun pst0 hreq0 (enc_head (req_line m u pr :: map gline gs) ++ rest)
+  = BFinished (fold_left add_hdr (map deliver gs) (http_req0 m u pr)) rest.
+Proof. exact http_decode_general. Qed.
+Print Assumptions http_decode_encode_general.
+
+Theorem frontends_agree_folded_quoted_values :
+  forall names m u pr gs body v,
+  req_line_ok m u pr -> Forall gheader_ok gs -> NoDup (names_of gs) ->
+  process_request names (fold_left add_hdr (map deliver gs) (http_req0 m u pr)) = POk v ->
+  (0 <= v_clen v <= cl_limit)%Z -> Z.to_nat (v_clen v) = length body ->
+  N.of_nat (length (gwire m u pr gs)) <= 16385 ->
+  env_ok (v_env v)
+  /\ (forall f rest, http_stream (S f) names (gwire m u pr gs ++ body ++ rest)
+                  = IReq v body :: match rest with [] => [] | l => http_stream f names l end)
+  /\ view_of_env (v_env v) = v
+  /\ (forall num, ~ In 58 num -> (length num <= 15)%nat -> atoi num = Z.of_nat (length (enc_scgi_blob (v_env v))) ->
+                  N.of_nat (length (enc_scgi_blob (v_env v))) <= 16384 ->
+                  (16 < length num + 2 + length (enc_scgi_blob (v_env v)))%nat ->
+                  scgi_decode (enc_scgi num (v_env v) body) = SOk (v_env v) body)
+  /\ (forall rid flags pad0 pl pend sl send rest,
+        rid < 65536 -> pad0 < 256 -> pend < 256 -> send < 256 -> flags < 256 -> layout_ok pl -> layout_ok sl ->
+        layout_data pl = enc_pairs (v_env v) -> N.of_nat (length (enc_pairs (v_env v))) < 16384 -> layout_data sl = body ->
+        fcgi_decode (enc_fcgi rid flags pad0 pl pend sl send ++ rest) = FOk (N.odd flags) (v_env v) body rest).
+Proof. exact frontends_agree_general. Qed.
+Print Assumptions frontends_agree_folded_quoted_values.
+
+(* plain texts (no CR, double quote, opening parenthesis) are the special case in which nothing is folded *)
+Theorem plain_value_is_general : forall w, plain w -> gvalue_ok w /\ fold_text w = w.
+Proof. exact plain_gvalue_ok. Qed.
+Print Assumptions plain_value_is_general.
+
+Example frontends_agree_general_nonvacuous :
+  Forall gheader_ok ex_gs /\ NoDup (names_of ex_gs) /\
+  process_request ex_names (fold_left add_hdr (map deliver ex_gs) (http_req0 (bs "POST"%string) (bs "/sync/a%20b?x=1"%string) (bs "HTTP/1.1"%string))) = POk ex_gv /\
+  (0 <= v_clen ex_gv <= cl_limit)%Z /\ v_clen ex_gv = 3%Z /\
+  N.of_nat (length (gwire (bs "POST"%string) (bs "/sync/a%20b?x=1"%string) (bs "HTTP/1.1"%string) ex_gs)) <= 16385 /\
+  env_get (bs "HTTP_X_FOLD"%string) (v_env ex_gv) = Some [97; 9; 98] /\
+  env_get (bs "HTTP_X_Q"%string) (v_env ex_gv) = Some (bs """q (x\"""" (c ""d"" (n)) z"%string) /\
+  ~ plain (bs " a"%string ++ crlf ++ [9] ++ bs "b"%string).
+Proof.
+  split; [apply gheaders_okb_ok; vm_compute; reflexivity|].
+  split; [apply nodupb_ok; vm_compute; reflexivity|].
+  split; [vm_compute; reflexivity|].
+  split; [vm_compute; split; intros H; discriminate H|].
+  split; [vm_compute; reflexivity|]. split; [vm_compute; intros H; discriminate H|].
+  split; [vm_compute; reflexivity|]. split; [vm_compute; reflexivity|].
+  intros H. inversion H as [|? ? _ H1]; subst. inversion H1 as [|? ? _ H2]; subst. inversion H2 as [|? ? (C & _) _]; subst. apply C. reflexivity.
+Qed.
 
 (* the accessors of the HTTP front-end (method, script name, path info, query string, content type and length) are
    those any front-end reads back from the environment, for every request the reader accepts with unique names *)
@@ -441,6 +511,106 @@ Proof.
 Qed.
 
 (* ---------------------------------------------------------------------------------------------------------
+   5f-bis. GET / POST form fields and cookies as the application observes them (observe = the view, the raw body and
+       the three maps request::prepare derives: parse_form_urlencoded of QUERY_STRING, of the body when the content type
+       is application/x-www-form-urlencoded, parse_cookies of HTTP_COOKIE; observe is what the extracted model prints).
+       parse (encode fields) = fields for EVERY field list (names non-empty, all bytes) and every cookie list (token names
+       and values, unique names). *)
+Theorem forms_and_cookies_roundtrip :
+  forall v body gets posts cs,
+  v_query v = enc_form gets -> Forall form_item_ok gets ->
+  is_urlencoded (v_ctype v) = true -> body = enc_form posts -> Forall form_item_ok posts ->
+  env_get s_HTTP_COOKIE (v_env v) = Some (enc_cookies cs) -> Forall cookie_ok cs -> NoDup (map fst cs) ->
+  o_get (observe v body) = gets /\ o_post (observe v body) = posts /\ o_cookies (observe v body) = cs.
+Proof. exact observe_roundtrip. Qed.
+Print Assumptions forms_and_cookies_roundtrip.
+
+(* a Cookie header (any spelling of the name, value text of any lexical shape) reaches parse_cookies as HTTP_COOKIE *)
+Theorem http_cookie_header_delivered :
+  forall names m u pr gs v n w,
+  NoDup (names_of gs) -> In (n, w) gs -> map upper_name n = [67; 79; 79; 75; 73; 69] ->
+  process_request names (fold_left add_hdr (map deliver gs) (http_req0 m u pr)) = POk v ->
+  env_get s_HTTP_COOKIE (v_env v) = Some (gvalue w).
+Proof. exact http_cookie_delivered. Qed.
+Print Assumptions http_cookie_header_delivered.
+
+(* composition: a cookie list sent as the header "<any spelling of Cookie>: k1=v1; k2=v2; ..." among other headers of any
+   shape is what request().cookies() shows (header reader + header glue + parse_cookies) *)
+Theorem http_cookies_sent_are_cookies_observed :
+  forall names m u pr gs v n cs body,
+  NoDup (names_of gs) -> In (n, 32 :: enc_cookies cs) gs -> map upper_name n = [67; 79; 79; 75; 73; 69] ->
+  Forall cookie_ok cs -> cs <> [] -> NoDup (map fst cs) ->
+  process_request names (fold_left add_hdr (map deliver gs) (http_req0 m u pr)) = POk v ->
+  o_cookies (observe v body) = cs.
+Proof. exact http_cookies_end_to_end. Qed.
+Print Assumptions http_cookies_sent_are_cookies_observed.
+
+(* composition for the forms: a field list encoded after the question mark of the request URI is request().get(); a field
+   list encoded in the body of a request whose Content-Type header (any spelling of the name, value of any lexical shape) names
+   the urlencoded media type is request().post() *)
+Theorem http_get_fields_sent_are_fields_observed :
+  forall names m script path pr hs gets body,
+  all_token m -> no_byte 63 script -> no_byte 63 path -> (exists s', script = 47 :: s') ->
+  strip_script names (script ++ path) = Some (script, path) -> Forall form_item_ok gets ->
+  exists v,
+    process_request names (fold_left add_hdr hs (http_req0 m (script ++ path ++ qpart (Some (enc_form gets))) pr)) = POk v /\
+    o_get (observe v body) = gets.
+Proof. exact http_get_fields_end_to_end. Qed.
+Print Assumptions http_get_fields_sent_are_fields_observed.
+
+Theorem http_post_fields_sent_are_fields_observed :
+  forall names m u pr gs v n w posts,
+  NoDup (names_of gs) -> In (n, w) gs -> map upper_name n = s_CONTENT_TYPE -> is_urlencoded (gvalue w) = true ->
+  process_request names (fold_left add_hdr (map deliver gs) (http_req0 m u pr)) = POk v ->
+  Forall form_item_ok posts ->
+  o_post (observe v (enc_form posts)) = posts.
+Proof. exact http_post_fields_end_to_end. Qed.
+Print Assumptions http_post_fields_sent_are_fields_observed.
+
+(* the three front-ends deliver the same GET form, POST form and cookie maps (and view and body): an SCGI or FastCGI peer
+   (any record layout) sending the environment of the HTTP request makes the application observe exactly what it
+   observes over HTTP *)
+Theorem frontends_same_forms_and_cookies :
+  forall names m u pr gs body v,
+  req_line_ok m u pr -> Forall gheader_ok gs -> NoDup (names_of gs) ->
+  process_request names (fold_left add_hdr (map deliver gs) (http_req0 m u pr)) = POk v ->
+  (0 <= v_clen v <= cl_limit)%Z -> Z.to_nat (v_clen v) = length body ->
+  N.of_nat (length (gwire m u pr gs)) <= 16385 ->
+  (forall f rest, http_stream (S f) names (gwire m u pr gs ++ body ++ rest)
+                  = IReq v body :: match rest with [] => [] | l => http_stream f names l end)
+  /\ (forall num, ~ In 58 num -> (length num <= 15)%nat -> atoi num = Z.of_nat (length (enc_scgi_blob (v_env v))) ->
+                  N.of_nat (length (enc_scgi_blob (v_env v))) <= 16384 ->
+                  (16 < length num + 2 + length (enc_scgi_blob (v_env v)))%nat ->
+                  exists e b, scgi_decode (enc_scgi num (v_env v) body) = SOk e b /\ observe_env e b = observe v body)
+  /\ (forall rid flags pad0 pl pend sl send rest,
+        rid < 65536 -> pad0 < 256 -> pend < 256 -> send < 256 -> flags < 256 -> layout_ok pl -> layout_ok sl ->
+        layout_data pl = enc_pairs (v_env v) -> N.of_nat (length (enc_pairs (v_env v))) < 16384 -> layout_data sl = body ->
+        exists e b, fcgi_decode (enc_fcgi rid flags pad0 pl pend sl send ++ rest) = FOk (N.odd flags) e b rest /\
+                    observe_env e b = observe v body).
+Proof. exact frontends_same_observation. Qed.
+Print Assumptions frontends_same_forms_and_cookies.
+
+(* POST /sync/p?a%20b=1%262%3d3&k= with a Cookie header, an urlencoded body and a folded header: the application
+   observes the field lists and cookies the peer encoded *)
+Example forms_and_cookies_nonvacuous :
+  Forall gheader_ok ex_gs2 /\ NoDup (names_of ex_gs2) /\ req_line_ok (bs "POST"%string) ex_u2 (bs "HTTP/1.1"%string) /\
+  process_request ex_names (fold_left add_hdr (map deliver ex_gs2) (http_req0 (bs "POST"%string) ex_u2 (bs "HTTP/1.1"%string))) = POk ex_v2 /\
+  Z.to_nat (v_clen ex_v2) = length ex_body2 /\
+  Forall form_item_ok ex_gets /\ Forall form_item_ok ex_posts /\ Forall cookie_ok ex_cs /\ NoDup (map fst ex_cs) /\
+  v_query ex_v2 = enc_form ex_gets /\ is_urlencoded (v_ctype ex_v2) = true /\
+  env_get s_HTTP_COOKIE (v_env ex_v2) = Some (enc_cookies ex_cs) /\
+  o_get (observe ex_v2 ex_body2) = ex_gets /\ o_post (observe ex_v2 ex_body2) = ex_posts /\ o_cookies (observe ex_v2 ex_body2) = ex_cs.
+Proof.
+  split; [apply gheaders_okb_ok; vm_compute; reflexivity|].
+  split; [apply nodupb_ok; vm_compute; reflexivity|].
+  split; [apply req_line_okb_ok; vm_compute; reflexivity|].
+  split; [vm_compute; reflexivity|]. split; [vm_compute; reflexivity|].
+  split; [apply form_okb_ok; vm_compute; reflexivity|]. split; [apply form_okb_ok; vm_compute; reflexivity|].
+  split; [apply cookies_okb_ok; vm_compute; reflexivity|]. split; [apply nodupb_ok; vm_compute; reflexivity|].
+  repeat split; vm_compute; reflexivity.
+Qed.
+
+(* ---------------------------------------------------------------------------------------------------------
    5d. string_pool (private/string_map.h), the arena of the environment strings: for EVERY sequence of alloc / add /
        clear every allocation lies inside the page it was carved from, and clear() (called between the requests of a
        kept-alive connection) returns the pool to its initial state. *)
@@ -462,6 +632,108 @@ Example pool_nonvacuous :
   = [(0%nat, 0, 10, 2048); (0%nat, 10, 10, 2048); (1%nat, 0, 1501, 1501); (1%nat, 0, 2000, 2000);
      (0%nat, 0, 1024, 2048); (0%nat, 1024, 1024, 2048); (2%nat, 0, 1, 2048)].
 Proof. vm_compute. reflexivity. Qed.
+
+(* ---------------------------------------------------------------------------------------------------------
+   5g. string_map (private/string_map.h), the open-addressing hash map behind connection::env_: linear probing from
+       hash % size, growth to twice the size when total_*2 >= size (re-inserting the entries in list order), clear().
+       For EVERY hash function h, EVERY number of variables with distinct names (across any number of growths):
+       all add loops stop, total_ counts the variables, get returns for every name exactly what the association list
+       env_t of the front-end models returns (the value added under that name; null for an absent name - that probe
+       loop stops too), and the iteration begin()..end() visits exactly the added pairs.  This is what justifies
+       modelling env_ as an association list in all theorems above. *)
+Theorem env_map_refines_assoc_list :
+  forall (h : bytes -> N) l, NoDup (map fst l) ->
+  exists m, sm_adds h l smap0 = Some m /\ total m = length l /\
+            (forall k, sm_get h m k = Some (env_get k l)) /\
+            (forall e, In e (entries_of (tbl m) (chain m)) <-> In e l).
+Proof. exact smap_refines_env. Qed.
+Print Assumptions env_map_refines_assoc_list.
+
+Theorem env_map_absent_lookup_terminates :
+  forall (h : bytes -> N) l k, NoDup (map fst l) -> ~ In k (map fst l) ->
+  exists m, sm_adds h l smap0 = Some m /\ sm_get h m k = Some None.
+Proof. exact smap_absent_terminates. Qed.
+Print Assumptions env_map_absent_lookup_terminates.
+
+(* clear() between the requests of a kept-alive connection: the next request is parsed into the initial map *)
+Theorem env_map_clear_is_initial : forall m, sm_clear m = smap0.
+Proof. exact smap_clear_initial. Qed.
+Print Assumptions env_map_clear_is_initial.
+
+(* 140 variables (three growths: 64 -> 128 -> 256 -> 512 slots) with the hash function of private/hash_map.h; growth
+   happens at the 33rd and 65th add.  Duplicate names are outside the theorem: the code returns the value added FIRST
+   while the table has not grown since, the one added SECOND after one growth (the re-insertion walks the list from the
+   most recent entry) and the first again after two growths - replayed on the real class by corpus/C01/smap.case. *)
+Example env_map_nonvacuous :
+  NoDup (map fst (ex_vars 140)) /\ size_after (ex_vars 140) = Some (512, 140)%nat /\
+  get_after (ex_vars 140) (ex_key 77) = Some (Some (ex_val 77)) /\ get_after (ex_vars 140) (ex_key 140) = Some None /\
+  size_after (ex_vars 32) = Some (64, 32)%nat /\ size_after (ex_vars 33) = Some (128, 33)%nat /\
+  size_after (ex_vars 64) = Some (128, 64)%nat /\ size_after (ex_vars 65) = Some (256, 65)%nat /\
+  get_after (ex_dups 30) ex_dup_key = Some (Some [49]) /\ get_after (ex_dups 31) ex_dup_key = Some (Some [50]) /\
+  get_after (ex_dups 62) ex_dup_key = Some (Some [50]) /\ get_after (ex_dups 63) ex_dup_key = Some (Some [49]).
+Proof.
+  split; [apply nodupb_ok; vm_compute; reflexivity|].
+  do 10 (split; [vm_compute; reflexivity|]). vm_compute; reflexivity.
+Qed.
+
+(* ---------------------------------------------------------------------------------------------------------
+   5h. Keep-alive, final form: k requests on one connection (HTTP: header values of every lexical shape; FastCGI: every
+       request in its own record layout), the byte stream cut into reads ANYWHERE: the connection delivers each request
+       exactly as if it were sent alone, in one piece, on a fresh connection - nothing of the state carried between the
+       requests (read-ahead buffer / cache_, parser state, total_read_) leaks.  SCGI serves one request per connection
+       (scgi_all_segmentations).  The per-request state of the connection object - string_pool and env_ map - is
+       cleared by reset_all(): allocation trace and map of every request are those of the request alone on a fresh
+       connection, whatever state (satisfying the pool invariant) the earlier requests left. *)
+Theorem http_keepalive_each_as_if_alone :
+  forall names qs chunks fuel,
+  Forall (hg_ok names) qs -> qs <> [] -> (length qs <= fuel)%nat ->
+  concat chunks = flat_map hg_wire qs ->
+  http_conn fuel names chunks = flat_map (fun q => http_conn 1 names [hg_wire q]) qs
+  /\ http_conn fuel names chunks = map (fun q => IReq (g_v q) (g_body q)) qs.
+Proof.
+  intros names qs chunks fuel OK NE F C. split;
+    [exact (http_keepalive_as_if_alone names qs chunks fuel OK NE F C)|exact (http_all_segmentations_general names qs chunks fuel OK NE F C)].
+Qed.
+Print Assumptions http_keepalive_each_as_if_alone.
+
+Theorem fcgi_keepalive_each_as_if_alone :
+  forall qs chunks fuel,
+  Forall freq_ok qs -> Forall (fun q => N.odd (q_flags q) = true) qs -> (length qs <= fuel)%nat -> qs <> [] ->
+  concat chunks = flat_map enc_freq qs ->
+  fcgi_conn_c fuel (cache_of chunks) = flat_map (fun q => fcgi_conn_c 1 (cache_of [enc_freq q])) qs.
+Proof. exact fcgi_keepalive_as_if_alone. Qed.
+Print Assumptions fcgi_keepalive_each_as_if_alone.
+
+Theorem keepalive_pool_and_env_do_not_leak :
+  forall (h : bytes -> N) reqs p m, inv p -> conn_state_run h reqs p m = map (alone_state h) reqs.
+Proof. exact keepalive_state_no_leak. Qed.
+Print Assumptions keepalive_pool_and_env_do_not_leak.
+
+Theorem keepalive_request_reads_its_own_variables :
+  forall (h : bytes -> N) reqs p m, inv p -> Forall (fun vars => NoDup (map fst vars)) reqs ->
+  Forall2 (fun vars out => exists m', snd out = Some m' /\ forall k, sm_get h m' k = Some (env_get k vars))
+          reqs (conn_state_run h reqs p m).
+Proof. exact keepalive_env_own_variables. Qed.
+Print Assumptions keepalive_request_reads_its_own_variables.
+
+Example keepalive_general_nonvacuous :
+  let q1 := mkhg (bs "POST"%string) ex_u2 (bs "HTTP/1.1"%string) ex_gs2 ex_body2 ex_v2 in
+  let q2 := mkhg (bs "POST"%string) (bs "/sync/a%20b?x=1"%string) (bs "HTTP/1.1"%string) ex_gs (bs "abc"%string) ex_gv in
+  hg_ok ex_names q1 /\ hg_ok ex_names q2 /\
+  http_conn 3 ex_names [firstn 37 (hg_wire q1 ++ hg_wire q2); skipn 37 (hg_wire q1 ++ hg_wire q2)]
+  = [IReq ex_v2 ex_body2; IReq ex_gv (bs "abc"%string)] /\
+  conn_state_run elf_hash [ex_vars 70; ex_vars 3] pool0 smap0 = [alone_state elf_hash (ex_vars 70); alone_state elf_hash (ex_vars 3)].
+Proof.
+  cbv zeta. split.
+  { split; [apply req_line_okb_ok; vm_compute; reflexivity|]. split; [apply gheaders_okb_ok; vm_compute; reflexivity|].
+    split; [vm_compute; reflexivity|]. split; [vm_compute; split; intros H; discriminate H|].
+    split; [vm_compute; reflexivity|vm_compute; intros H; discriminate H]. }
+  split.
+  { split; [apply req_line_okb_ok; vm_compute; reflexivity|]. split; [apply gheaders_okb_ok; vm_compute; reflexivity|].
+    split; [vm_compute; reflexivity|]. split; [vm_compute; split; intros H; discriminate H|].
+    split; [vm_compute; reflexivity|vm_compute; intros H; discriminate H]. }
+  split; vm_compute; reflexivity.
+Qed.
 
 (* ---------------------------------------------------------------------------------------------------------
    6. Tie to the source: leaf predicates regenerated from private/http_protocol.h by tools/cxx2v.py on every run
